@@ -222,8 +222,8 @@ namespace BitSerializer::Csv::Detail
 
 	//------------------------------------------------------------------------------
 
-	CCsvStreamReader::CCsvStreamReader(std::istream& inputStream, bool withHeader, char separator)
-		: mEncodedStreamReader(inputStream)
+	CCsvStreamReader::CCsvStreamReader(std::istream& inputStream, bool withHeader, char separator, Convert::Utf::UtfEncodingErrorPolicy utfEncodingErrorPolicy)
+		: mEncodedStreamReader(inputStream, utfEncodingErrorPolicy)
 		, mWithHeader(withHeader)
 		, mSeparator(separator)
 	{
